@@ -32,3 +32,8 @@ CHECKS["C19"] = {
   "text": "For each repository test module every failure offset k in 0..len(String()) is enumerated (thorough; quick takes every 7th plus both ends), in two writer modes (keeps failing / would accept later writes), plus rapid-drawn (llvm-stress module, offset) pairs biased to line boundaries and the ends. The oracle is the contract itself: n equals the bytes the writer accepted, err is the writer's first error by identity, delivered bytes are String()[:k], no Write call follows the failure; a healthy writer receives exactly String().",
   "note": "Modules come from the repository's testdata and llvm-stress (parsed by the library) - a module the parser cannot read is discarded and counted. Trusts String() as the definition of the expected bytes (the property defines WriteTo relative to it).",
 }
+CHECKS["C16"] = {
+  "technique": "property-based testing: rapid-generated type universes (recursive, mutually recursive, opaque identified structs) and types with one-feature-apart mutants, instantiated as two disjoint object graphs, against a reference type identity; metamorphic print→parse round trip",
+  "text": "Equal is compared with an independent structural reference (identified structs by name, everything else by structure) on every ordered pair of every generated case, and checked for reflexivity (same object and a disjoint copy), symmetry, transitivity on all triples and termination (a stack overflow kills the shard; the driver re-runs it with case tracing and reports the crashing case); Equal(t, parse(print(t))) is checked by embedding t at a position legal for its kind.",
+  "note": "Trusts am.Equal (h/am/types.go) as the statement of LLVM type identity and the am→llir type instantiation (h/emit/types.go). Universes follow LLVM's data model: unique names, only struct types are named.",
+}
